@@ -11,7 +11,7 @@ import itertools
 import re
 
 from ..cells import Model, amino_cells, ff_status, nucleic_cells
-from ..core import AnalysisError, U, assigned_names, calls_in, guards_of, iter_stmts, walk_no_defs
+from ..core import AnalysisError, U, names_in, assigned_names, calls_in, guards_of, iter_stmts, walk_no_defs
 from ..guards import Flow, Interp
 from ..tables import AMINO, FFS, NUCLEIC, Tables
 
@@ -257,9 +257,14 @@ def rule_keys(prog, rep):
 # ---------------------------------------------------------------------------------- R3
 def rule_columns(prog, rep):
     r = rep.rule("R3", "DAT columns 0..4 bind to resname, name, charge, radius, group", floor=5)
-    fi = prog.func("forcefield.py", "Forcefield.__init__")
+    # the DAT parser: the function of forcefield.py that constructs ForcefieldAtom objects from a split line
+    cands = [f for k, f in prog.funcs.items() if f.module.rel == "forcefield.py" and any(U(c.func) == "ForcefieldAtom" for c in calls_in(f.node))
+             and any(isinstance(c.func, ast.Attribute) and c.func.attr == "split" for c in calls_in(f.node))]
+    if len(cands) != 1:
+        raise AnalysisError(f"forcefield.py: expected one parameter-file parser constructing ForcefieldAtom, found {[f.qual for f in cands]}")
+    fi = cands[0]
     fn = fi.node
-    where = f"pdb2pqr/forcefield.py:{fn.lineno} (Forcefield.__init__)"
+    where = f"pdb2pqr/forcefield.py:{fn.lineno} ({fi.qual})"
     ctor = prog.func("forcefield.py", "ForcefieldAtom.__init__").node
     cparams = [a.arg for a in ctor.args.args][1:]
     # which local holds the split line
@@ -315,10 +320,21 @@ def rule_columns(prog, rep):
         if missing:
             r.bad(f"column|ctor{i}:missing", f"constructor call does not bind {missing}", where)
     # user-supplied files go through the very same parse loop and handler
-    src = U(fn)
-    r.add("user-files-same-path", "defpath = io.test_dat_file(ff_name) if userff is None else userff" in src
-          and src.count("ForcefieldAtom(") == len(calls) and src.count("sax.parseString(") == 1
-          and "names_path = usernames" in src, "a user-supplied .DAT/.names pair is parsed by the same loop and handler as the built-ins", where)
+    # (one parser function was established above); one XML parse site; the user-file parameters only select path values
+    ff_funcs = [f for k, f in prog.funcs.items() if f.module.rel == "forcefield.py" and f.qual.startswith("Forcefield.")]
+    sax_sites = [c for f in ff_funcs for c in calls_in(f.node) if U(c.func).endswith("parseString")]
+    opens = [c for w in walk_no_defs(fn) if isinstance(w, ast.With) and any(U(x.func) == "ForcefieldAtom" for x in calls_in(w))
+             for it_ in w.items for c in calls_in(it_.context_expr) if U(c.func) == "open"]
+    steering = []
+    for f in ff_funcs:
+        params = {a.arg for a in f.node.args.args} & {"userff", "usernames"}
+        for n in walk_no_defs(f.node):
+            if isinstance(n, ast.If) and any(x in params for x in names_in(n.test)):
+                arm_calls = [U(c.func) for st in n.body for c in calls_in(st)]
+                steering += [f"{f.qual}:{n.lineno} {x}" for x in arm_calls if not x.startswith(("io.test_", "_LOGGER.", "str", "Path"))]
+    r.add("user-files-same-path", len(sax_sites) == 1 and len(opens) == 1 and not steering,
+          f"one parameter parser ({fi.qual}, {len(opens)} open), {len(sax_sites)} names-file parse site; the user-file parameters only select "
+          f"which path is parsed (calls under a user-file test: {steering or 'none'})", where)
     # comment lines
     cm = [n for n in walk_no_defs(fn) if isinstance(n, ast.Call) and U(n.func).endswith(".startswith") and n.args
           and isinstance(n.args[0], ast.Constant) and n.args[0].value == "#"]
